@@ -655,4 +655,43 @@ theorem loopback_v4_never_refused (peer : Text) (a : Addr) (n : Nat) (sc : Optio
   exact loopback_and_localmode_exempt peer a m bg bp hp
     (Or.inl (by simp only [classOf, he]; exact (loopback_exact4 n (by omega)).2 ⟨h1, h2⟩))
 
+
+/-! ### audit round 6 (b-c20): additional non-vacuity witnesses — hypotheses of the theorems above instantiated on
+    concrete non-trivial values, computed by the kernel -/
+
+-- `global_refused`: all four hypotheses hold together for the zone-scoped peer "8.8.8.8%eth0" in regular mode
+example : parseIp (peerHost [0x38,0x2e,0x38,0x2e,0x38,0x2e,0x38,0x25,0x65,0x74,0x68,0x30]) = some (Addr.v4 134744072) ∧
+    (classOf (Addr.v4 134744072)).glob = true ∧ (classOf (Addr.v4 134744072)).loop = false ∧
+    Mode.regular ≠ Mode.local := by decide +kernel
+-- `private_refused` / `rfc1918_refused`: "::ffff:192.168.1.5%wlan0" is IPv4-mapped + scoped; its class is private, not loopback
+example : parseIp (peerHost [0x3a,0x3a,0x66,0x66,0x66,0x66,0x3a,0x31,0x39,0x32,0x2e,0x31,0x36,0x38,0x2e,0x31,0x2e,0x35,0x25,0x77,0x6c,0x61,0x6e,0x30]) = some (Addr.v6 (0xFFFF * 4294967296 + 3232235781) none) ∧
+    (classOf (Addr.v6 (0xFFFF * 4294967296 + 3232235781) none)).priv = true ∧
+    (classOf (Addr.v6 (0xFFFF * 4294967296 + 3232235781) none)).loop = false := by decide +kernel
+-- a genuinely IPv6 global source ("2001:4860:4860::8888") and an IPv6 link-local one with a zone ("fe80::1%eth0")
+example : verdict [0x32,0x30,0x30,0x31,0x3a,0x34,0x38,0x36,0x30,0x3a,0x34,0x38,0x36,0x30,0x3a,0x3a,0x38,0x38,0x38,0x38] .regular true false = .killedGlobal := by decide +kernel
+example : verdict [0x66,0x65,0x38,0x30,0x3a,0x3a,0x31,0x25,0x65,0x74,0x68,0x30] .regular false true = .killedPrivate ∧
+    verdict [0x66,0x65,0x38,0x30,0x3a,0x3a,0x31,0x25,0x65,0x74,0x68,0x30] .regular true false = .pass ∧
+    verdict [0x66,0x65,0x38,0x30,0x3a,0x3a,0x31,0x25,0x65,0x74,0x68,0x30] .local true true = .pass := by decide +kernel
+-- `others_not_refused` / `refused_before_processing`: their hypothesis (a refusal) is reachable, and the trace is the short one
+example : (verdict [0x38,0x2e,0x38,0x2e,0x38,0x2e,0x38] .regular true false).refused = true ∧
+    clientTrace [0x38,0x2e,0x38,0x2e,0x38,0x2e,0x38] .regular true false = [Ev.hookClientConnected, Ev.closeWriter, Ev.hookClientDisconnected] ∧
+    clientTrace [0x31,0x32,0x37,0x2e,0x30,0x2e,0x30,0x2e,0x31] .regular true true =
+      [Ev.hookClientConnected, Ev.startLayer, Ev.handleConnection, Ev.hookClientDisconnected] := by decide +kernel
+-- `unparseable_not_refused`: "localhost" and "8.8.8.8/32" are no addresses: the hook raises, nothing is refused
+example : verdict [0x6c,0x6f,0x63,0x61,0x6c,0x68,0x6f,0x73,0x74] .regular true true = .raised ∧
+    verdict [0x38,0x2e,0x38,0x2e,0x38,0x2e,0x38,0x2f,0x33,0x32] .regular true true = .raised := by decide +kernel
+-- `loopback_v4_never_refused`: the mapped + scoped loopback "::ffff:127.0.0.1%lo" passes under both options
+example : verdict [0x3a,0x3a,0x66,0x66,0x66,0x66,0x3a,0x31,0x32,0x37,0x2e,0x30,0x2e,0x30,0x2e,0x31,0x25,0x6c,0x6f] .regular true true = .pass := by decide +kernel
+-- `shared_space_neither`: 100.64.0.1 is refused by neither option (end to end)
+example : verdict [0x31,0x30,0x30,0x2e,0x36,0x34,0x2e,0x30,0x2e,0x31] .regular true true = .pass := by decide +kernel
+-- `table_eq_membership6` / `effective_not_mapped`: a non-mapped IPv6 address satisfies the side condition and the two
+-- classifications agree on it with a non-trivial class
+example : (42541956123769884636017138956568135816 : Nat) / 4294967296 ≠ 0xFFFF ∧
+    classify (Addr.v6 42541956123769884636017138956568135816 none) = memberCls (Addr.v6 42541956123769884636017138956568135816 none) ∧
+    (classify (Addr.v6 42541956123769884636017138956568135816 none)).glob = true := by decide +kernel
+example : effective (Addr.v6 338288524927261089654018896841347694593 (some [0x65,0x74,0x68,0x30])) = Addr.v6 338288524927261089654018896841347694593 (some [0x65,0x74,0x68,0x30]) ∧
+    effective (Addr.v6 (0xFFFF * 4294967296 + 167772161) none) = Addr.v4 167772161 := by decide +kernel
+-- `only_local_mode_exempt` is not about a one-element type: other modes exist and are not exempt
+example : Mode.regular.isLocal = false ∧ Mode.local.isLocal = true := by decide
+
 end MitmVerif.Props.C22
